@@ -225,6 +225,11 @@ func runC06(r *Run) {
 	checkTextAttrs(r, tb, add, getM)
 	tb.Done()
 
+	// ---- every byte of a value is the setter's: written by it, or zero because the buffer is fresh
+	fr := r.Rule("C06.fresh", "the value a typed setter hands to Add is the caller's own data, or a freshly made buffer (zeroed: reserved bytes are 0), or else every byte of it is written by the setter before the call: no byte of a value is left over from another use of a shared scratch buffer", 4)
+	checkValueFresh(r, fr, le, cl, add)
+	fr.Done()
+
 	// ---- accept
 	ac := r.Rule("C06.accept", "no getter rejects a value length that RFC 5389 allows for its attribute (ERROR-CODE: >= 4; addresses: 8 and 20; UNKNOWN-ATTRIBUTES: every even length; text: any)", 4)
 	checkAccept(r, ac, getM)
@@ -749,9 +754,47 @@ func checkUnknownAttrs(r *Run, rc *RuleCtx, le *linEval, add *ssa.Function) {
 			}
 		}
 	})
+	// exactly one entry per list element: nothing is appended to the value outside the loop over the list
+	{
+		loops := loopsOf(w)
+		eachInstr(w, func(b *ssa.BasicBlock, i int, in ssa.Instruction) {
+			ap, ok := in.(*ssa.Call)
+			if !ok || !isBuiltinCall(ap, "append") {
+				return
+			}
+			if sl, isSl := ap.Type().Underlying().(*types.Slice); !isSl || !types.Identical(sl.Elem(), types.Typ[types.Byte]) {
+				return
+			}
+			rc.Instance("UNKNOWN-ATTRIBUTES|writer append", true, nil)
+			if inLoop(loops, b) == nil && !zeroLenValue(ap.Call.Args[0], 0) {
+				rc.Violation(w, instrPos(ap), "UNKNOWN-ATTRIBUTES value extended outside the loop", "bytes are appended to the value that are not the entry of a list element: a list of n types must encode to exactly 2n bytes (RFC 5389 15.9), an independent decoder reads every extra pair as one more type")
+			}
+		})
+		// the decoded list is what the loop appended: after the loop it is not cut or extended
+		gl := loopsOf(g)
+		if len(g.Params) > 0 {
+			recv := g.Params[0]
+			eachInstr(g, func(b *ssa.BasicBlock, i int, in ssa.Instruction) {
+				st, ok := in.(*ssa.Store)
+				if !ok || st.Addr != ssa.Value(recv) {
+					return
+				}
+				rc.Instance("UNKNOWN-ATTRIBUTES|reader store", true, nil)
+				if inLoop(gl, b) != nil {
+					return
+				}
+				// outside the loop: only the reset to length 0 that precedes it
+				if zeroLenValue(st.Val, 0) {
+					return
+				}
+				rc.Violation(g, instrPos(st), "UNKNOWN-ATTRIBUTES list changed outside the loop", "the decoded list is cut or extended after the entries were read: a list produced by an independent encoder does not read back entry for entry")
+			})
+		}
+	}
 	// reader: Uint16 at v[first:first+2], first advancing by 2, and the length guard modulo 2
 	okR, okStep, okMod := false, false, false
-	for _, s := range wireSites(le, g) {
+	readerSites := wireSites(le, g)
+	for _, s := range readerSites {
 		if s.Kind != "Uint16" || s.Hi == nil {
 			continue
 		}
@@ -805,6 +848,12 @@ func checkUnknownAttrs(r *Run, rc *RuleCtx, le *linEval, add *ssa.Function) {
 			raw := false
 			if c, isC := stripConvs(e).(*ssa.Call); isC {
 				if name, w, _, okA := accessorCall(c); okA && w == 2 && strings.HasPrefix(name, "Uint") {
+					raw = true
+				}
+			}
+			// the hand-written big-endian read uint16(b[i])<<8 | uint16(b[i+1]) (LAYOUT reports it as a Uint16 site)
+			for _, ws := range readerSites {
+				if ws.Kind == "Uint16" && ws.Val != nil && ws.Val == stripConvs(e) {
 					raw = true
 				}
 			}
@@ -1201,6 +1250,28 @@ func setterRejectClass(p *Prog, g rejectGuard) string {
 		}
 		break
 	}
+	// a flag: a boolean merged from false and one or more conditions (a scan loop that records a hit and is
+	// tested behind the loop) rejects when one of those conditions held
+	if ph, isPhi := cond.(*ssa.Phi); isPhi && when {
+		cls := ""
+		okAll := len(ph.Edges) > 0
+		for _, e := range ph.Edges {
+			if c, isC := e.(*ssa.Const); isC && c.Value != nil && c.Value.String() == "false" {
+				continue
+			}
+			if e == ssa.Value(ph) {
+				continue
+			}
+			c2 := setterRejectClass(p, rejectGuard{g.If, e, true})
+			if cls != "" && c2 != cls {
+				okAll = false
+			}
+			cls = c2
+		}
+		if okAll && cls != "" {
+			return cls
+		}
+	}
 	// membership in a package-level table (reason, ok := errorReasons[code]; !ok)
 	if e, isE := cond.(*ssa.Extract); isE && e.Index == 1 {
 		if lk, isL := e.Tuple.(*ssa.Lookup); isL && lk.CommaOk {
@@ -1525,5 +1596,133 @@ func checkGetterAccept(r *Run, rc *RuleCtx, cl *closures, getM *ssa.Function) {
 				rc.Violation(fn, instrPos(g.If), "getter rejects when "+cls, fmt.Sprintf("the reviewed getter rejects only on %v: a value that RFC 5389 allows for the attribute (and that an independent encoder produces) is refused", ref))
 			}
 		}
+	}
+}
+
+// checkValueFresh: see rule C06.fresh.
+func checkValueFresh(r *Run, rc *RuleCtx, le *linEval, cl *closures, add *ssa.Function) {
+	p := r.P
+	onStack := map[*ssa.Phi]bool{}
+	var classify func(v ssa.Value, depth int) string
+	classify = func(v ssa.Value, depth int) string {
+		if depth > 8 {
+			return "scratch"
+		}
+		switch x := v.(type) {
+		case *ssa.MakeSlice, *ssa.Alloc, *ssa.Const:
+			return "fresh"
+		case *ssa.Parameter, *ssa.FreeVar:
+			return "data"
+		case *ssa.Convert:
+			return classify(x.X, depth+1)
+		case *ssa.ChangeType:
+			return classify(x.X, depth+1)
+		case *ssa.Slice:
+			return classify(x.X, depth+1)
+		case *ssa.Field:
+			return classify(x.X, depth+1)
+		case *ssa.FieldAddr:
+			return classify(x.X, depth+1)
+		case *ssa.IndexAddr:
+			return classify(x.X, depth+1)
+		case *ssa.Phi:
+			if onStack[x] {
+				return "" // loop-carried: decided by the other sources
+			}
+			onStack[x] = true
+			defer delete(onStack, x)
+			out := ""
+			for _, e := range x.Edges {
+				c := classify(e, depth+1)
+				if c == "scratch" {
+					return c
+				}
+				if c != "" && (out == "" || c == "data") {
+					out = c
+				}
+			}
+			if out == "" && depth == 0 {
+				return "scratch"
+			}
+			return out
+		case *ssa.Call:
+			if isBuiltinCall(x, "append") {
+				// append onto a fresh or empty base: the bytes are the appended ones
+				if zeroLenValue(x.Call.Args[0], 0) {
+					return "fresh"
+				}
+				return classify(x.Call.Args[0], depth+1)
+			}
+			// EXT hash.Hash.Sum(b) / a module function returning what it built: judged by its argument buffer
+			if x.Call.IsInvoke() && x.Call.Method.Name() == "Sum" {
+				return "fresh"
+			}
+			if sc := x.Call.StaticCallee(); sc != nil && p.isLibFn(sc) {
+				return "fresh" // a value computed by a library function (newHMAC, FingerprintValue): its own rules apply
+			}
+			return "scratch"
+		case *ssa.UnOp:
+			if x.Op == token.MUL {
+				if d := deref(x); d != ssa.Value(x) {
+					return classify(d, depth+1)
+				}
+				return classify(x.X, depth+1)
+			}
+		}
+		return "scratch"
+	}
+	for _, fn := range cl.Setters {
+		if fn.Blocks == nil || !p.isLibFn(fn) {
+			continue
+		}
+		var sites []wireSite
+		eachInstr(fn, func(b *ssa.BasicBlock, i int, in ssa.Instruction) {
+			c, ok := in.(*ssa.Call)
+			if !ok || !callsFn(c, add) || len(c.Call.Args) < 3 {
+				return
+			}
+			r.Analysed(fn)
+			val := c.Call.Args[2]
+			root, lo, hi := le.window(val)
+			cls := classify(root, 0)
+			if cls == "" {
+				cls = "scratch"
+			}
+			if cls != "scratch" {
+				rc.Instance(fnName(fn)+"|value", true, map[string]string{"setter": fnName(fn), "value": exprCanon(val), "class": cls})
+				return
+			}
+			if sites == nil {
+				sites = wireSites(le, fn)
+			}
+			cur, okC := lo.isConst()
+			covered := false
+			if okC {
+				for progress := true; progress && !covered; {
+					progress = false
+					for _, ws := range sites {
+						if ws.Role != "dst" || ws.Root != root || !instrDominates(ws.In, c) {
+							continue
+						}
+						l, isC := ws.Lo.isConst()
+						if !isC || l > cur {
+							continue
+						}
+						if ws.Hi == nil || hi != nil && ws.Hi.equal(*hi) {
+							covered = true
+							break
+						}
+						if h, isH := ws.Hi.isConst(); isH && h > cur {
+							cur = h
+							progress = true
+						}
+					}
+				}
+			}
+			rc.Instance(fnName(fn)+"|value", true, map[string]interface{}{"setter": fnName(fn), "value": exprCanon(val), "class": "shared scratch", "covered": covered})
+			if !covered {
+				rc.Violation(fn, instrPos(c), "value in a reused buffer, byte "+fmt.Sprint(cur)+" not written", "the value is built in a buffer that is neither fresh nor the caller's data, and not every byte of it is written before Add: what another use of the buffer left there goes out on the wire (reserved bytes that RFC 5389 wants zero, for one)")
+			}
+		})
 	}
 }
